@@ -668,6 +668,66 @@ def flatten_root_genes_fail(problem, markers, nodes):
     return None
 
 
+def marker_entries(tree, table):
+    """marker table {key string: genes} -> [(None | (level, node), genes)];
+    keys naming no parent of the tree are split at the first '/' (level names
+    carry none)"""
+    known = {marker_key(p): p for p in all_parent_keys(tree)}
+    out = []
+    for k, v in table.items():
+        if k in ('log', 'metadata'):
+            continue
+        if k in known:
+            key = known[k]
+        else:
+            a, _, b = k.partition('/')
+            key = (a, b)
+        out.append((key, list(v)))
+    return out
+
+
+def model_flat_setup(ctx, problem, cfg, nodes):
+    """the Lean model of the drop_level / flatten blocks (`mapSetup`: the table
+    becomes the sorted union of ALL lists, whatever drop_level says) and its
+    prediction of the gene list the root votes on (`flatRootGenes`, and group
+    E's full `Markers.stage`), against the hook trace of the real run.
+    Returns None or a dict describing the first difference."""
+    from ctmverif import markers_util as mu
+    tree = problem['tree']
+    entries = marker_entries(tree, problem['markers'])
+    case = {'tree': tree, 'entries': entries, 'Q': problem['query_genes'],
+            'R': problem['ref_genes']}
+    dl = cfg['drop_level']
+    extra = [dl] if dl is not None and dl not in tree else []
+    can = mu.Canon(case, extra_levels=extra)
+    out = ctx.model('levelloop.setup', {
+        'tree': can.tree_json,
+        'config': {'dropLevel': None if dl is None else can.tc.level_id[dl],
+                   'flatten': cfg['flatten'], 'chunkSize': cfg['chunk_size'],
+                   'nProc': cfg['n_processors']},
+        'lookup': can.lookup(entries), 'Q': can.ids(problem['query_genes']),
+        'R': can.ids(problem['ref_genes']), 'm': 1})
+    if 'err' in out['setup']:
+        return {'field': 'setup', 'model': out['setup']}
+    union = sorted({g for _, v in entries for g in v})
+    got = can.unlookup(out['setup']['ok']['lookup'])
+    if cfg['flatten'] and got != {'None': union}:
+        return {'field': 'setup-lookup', 'model': got, 'indep': union}
+    roots = [e for e in (nodes or []) if e.get('parent') is None]
+    if cfg['flatten'] and roots:
+        flat = can.names(out['flatRoot'])
+        stage = out['stageRoot']
+        for e in roots:
+            if list(e['query_genes']) != flat:
+                return {'field': 'flatRootGenes', 'impl': e['query_genes'],
+                        'model': flat}
+            if isinstance(stage, dict) or stage is None or \
+                    list(e['query_genes']) != can.names(stage):
+                return {'field': 'stageRoot', 'impl': e['query_genes'],
+                        'model': stage}
+    return None
+
+
 def run_levels(tree, cfg):
     """hierarchy of the tree the run votes on (independent of the repo)"""
     h = list(tree['hierarchy'])
